@@ -121,6 +121,10 @@ func runFrames(t *testing.T, tape *simrt.Tape, env dst.Env) *simrt.Outcome {
 			n := tape.Range(simrt.Wl, 1, 5)
 			for j := 0; j < n; j++ {
 				it := item{size: pickSize(tape, small, env.Tier)}
+				if k.name == "full" && it.size > 1<<24-12 {
+					// the limit applies to the frame: full adds length, seqno and crc
+					it.size = 1<<24 - 12
+				}
 				if si == 0 && tape.Coin(simrt.Wl, 1, 4) {
 					it = item{size: 4, code: int32(simrt.Pick(tape, simrt.Wl, 404, 429, 444, 1+tape.Choose(simrt.Wl, 1000)))}
 				}
